@@ -6,6 +6,7 @@ import (
 	"strings"
 
 	"github.com/nyaruka/gocommon/i18n"
+	"github.com/nyaruka/gocommon/urns"
 	"github.com/nyaruka/goflow/assets"
 	"github.com/nyaruka/goflow/assets/static"
 	"github.com/nyaruka/goflow/envs"
@@ -265,6 +266,8 @@ func runC18(c *Ctx) {
 	c.Exhaustive = true
 	c.Notes = append(c.Notes, "exhaustive over the finite text grid (contact language x allowed list x base language x translation state per language); the theorems cover arbitrary language lists")
 
+	runC18Voice(c, contactLangs, allowedLists, baseLangs)
+
 	// ---- sampled: attachments, quick replies, category names of different lengths ----------
 	n := c.N(1500, 60000)
 	lens := []string{"absent", "empty", "blank", "same", "longer", "shorter"}
@@ -313,6 +316,149 @@ func runC18(c *Ctx) {
 		}
 		runOne(cl, allowed, base, tr, baseAtts, baseQRs, "sampled")
 	}
+}
+
+// runC18Voice: say_msg in a voice flow resolves its text and its recording independently; the locale of the created
+// IVR message names the language of the text.
+func runC18Voice(c *Ctx, contactLangs []string, allowedLists [][]string, baseLangs []string) {
+	actionUUID := "ad154980-7bf7-4ab8-8728-545fd6378912"
+	opts := []string{"absent", "empty", "blank", "translated"}
+	count := 0
+	for _, cl := range contactLangs {
+		for _, allowed := range allowedLists {
+			for _, base := range baseLangs {
+				for _, tt := range opts {
+					for _, ta := range opts {
+						for _, other := range []string{"fra", "eng"} {
+							if other == base {
+								continue
+							}
+							count++
+							item := map[string]any{}
+							tr := map[string][]string{}
+							for p, o := range map[string]string{"text": tt, "audio_url": ta} {
+								switch o {
+								case "empty":
+									tr[p] = []string{}
+								case "blank":
+									tr[p] = []string{""}
+								case "translated":
+									if p == "text" {
+										tr[p] = []string{"text in " + other}
+									} else {
+										tr[p] = []string{"http://x.com/" + other + ".m4a"}
+									}
+								default:
+									continue
+								}
+								item[p] = tr[p]
+							}
+							loc := map[string]any{other: map[string]any{actionUUID: item}}
+							def := map[string]any{"uuid": "7a84463d-d209-4d3e-a0ff-79f977cd7bd0", "name": "V", "spec_version": "13.6.0", "language": base, "type": "voice", "revision": 1,
+								"expire_after_minutes": 60, "localization": loc, "nodes": []map[string]any{{"uuid": "72a1f5df-49f9-45df-94c9-d86f7ea064e5",
+									"actions": []any{map[string]any{"uuid": actionUUID, "type": "say_msg", "text": "base text", "audio_url": "http://x.com/base.m4a"}},
+									"exits": []map[string]any{{"uuid": "d7a36118-0a38-4b35-a7e4-ae89042f0d3c"}}}}}
+							aj, _ := json.Marshal(map[string]any{"flows": []any{def}, "channels": []any{map[string]any{"uuid": "57f1078f-88aa-46f4-a59a-948a5739c03d",
+								"name": "Voice", "address": "+12345671111", "schemes": []string{"tel"}, "roles": []string{"send", "receive", "call", "answer"}}}})
+							desc := map[string]any{"assets": json.RawMessage(aj), "contact_language": cl, "allowed_languages": allowed, "base_language": base, "label": "voice"}
+							src, err := static.NewSource(aj)
+							if err != nil {
+								c.Count("C18-assets-rejected")
+								continue
+							}
+							var al []i18n.Language
+							for _, a := range allowed {
+								al = append(al, i18n.Language(a))
+							}
+							env := envs.NewBuilder().WithAllowedLanguages(al...).Build()
+							sa, err := engine.NewSessionAssets(env, src, nil)
+							if err != nil {
+								c.Count("C18-assets-rejected")
+								continue
+							}
+							var msg *events.IVRCreatedEvent
+							ok := !c.Guard("C18-run", "panic:localize", desc, func() {
+								restore := setDeterministic(1)
+								defer restore()
+								contact := flows.NewEmptyContact(sa, "Ann", i18n.Language(cl), nil)
+								trig := triggers.NewBuilder(env, assets.NewFlowReference("7a84463d-d209-4d3e-a0ff-79f977cd7bd0", "V"), contact).Manual().
+									WithCall(assets.NewChannelReference("57f1078f-88aa-46f4-a59a-948a5739c03d", "Voice"), urns.URN("tel:+250788123123")).Build()
+								_, sp, err := engine.NewBuilder().Build().NewSession(sa, trig)
+								if err != nil {
+									c.Count("C18-go-error")
+									c.Notes = appendNote(c.Notes, err.Error())
+									return
+								}
+								for _, e := range sp.Events() {
+									if m, ok := e.(*events.IVRCreatedEvent); ok {
+										msg = m
+									}
+								}
+							})
+							if !ok || msg == nil {
+								c.Count("C18-voice-no-msg")
+								continue
+							}
+							// the preference list of the statement
+							prefs := []string{}
+							merged := ""
+							if cl != "" && contains(allowed, cl) {
+								merged = cl
+							} else if len(allowed) > 0 {
+								merged = allowed[0]
+							}
+							if merged != "" {
+								prefs = append(prefs, merged)
+							}
+							if len(allowed) > 0 && allowed[0] != merged {
+								prefs = append(prefs, allowed[0])
+							}
+							prefs = append(prefs, base)
+							resolve := func(prop, native string) (string, string) {
+								for _, l := range prefs {
+									if l == base {
+										return native, base
+									}
+									if l != other {
+										continue
+									}
+									v := tr[prop]
+									if len(v) == 0 || (len(v) == 1 && v[0] == "") {
+										continue
+									}
+									return v[0], l
+								}
+								return native, base
+							}
+							wantText, wantLang := resolve("text", "base text")
+							wantAudio, _ := resolve("audio_url", "http://x.com/base.m4a")
+							gotAudio := ""
+							if len(msg.Msg.Attachments()) > 0 {
+								gotAudio = msg.Msg.Attachments()[0].URL()
+							}
+							gotLang := ""
+							if msg.Msg.Locale() != i18n.NilLocale {
+								l, _ := msg.Msg.Locale().Split()
+								gotLang = string(l)
+							}
+							c.Eval(fmt.Sprintf("voice|%s|%v|%s|%s|%s|%s", cl, allowed, base, other, tt, ta))
+							c.Count("check:M-fallback-voice")
+							if msg.Msg.Text() != wantText {
+								c.Fail("monitor", "M-fallback", "voice-text-language", fmt.Sprintf("spoken text is %q, the fallback prescribes %q (%s)", msg.Msg.Text(), wantText, wantLang), desc)
+							}
+							if gotAudio != wantAudio {
+								c.Fail("monitor", "M-fallback", "voice-audio-language", fmt.Sprintf("recording is %q, the fallback prescribes %q", gotAudio, wantAudio), desc)
+							}
+							if gotLang != wantLang {
+								c.Fail("monitor", "M-fallback", "voice-msg-locale", fmt.Sprintf("locale language is %q, the text was taken from %q", gotLang, wantLang), desc)
+							}
+						}
+					}
+				}
+			}
+		}
+	}
+	c.Dist["voice-grid-size"] = count
 }
 
 func contains(xs []string, x string) bool {
